@@ -41,16 +41,19 @@ def importsOf (q : κ) : List (Import ρ) :=
     | some f => f.imports
     | none => []
 
+/-- the definitions of the configured document at `p`, if there is one -/
+def defsAt (p : κ) : Option (List Def) := (fs.lookup p).map (·.defs)
+
 /-- files reachable from the root (only existing files are nodes) -/
 inductive Reach : κ → Prop where
   | root : Reach root
   | step {q : κ} {imp : Import ρ} : Reach q → imp ∈ importsOf fs root rootFile q →
-      (fs.lookup (res q imp.rel)).isSome = true → Reach (res q imp.rel)
+      (defsAt fs (res q imp.rel)).isSome = true → Reach (res q imp.rel)
 
 /-- definition `x.2` of file `x.1` is a fragment requested by an import line of a reachable file -/
 def Selected (x : DefId κ) : Prop :=
-  ∃ q imp f n, Reach res fs root rootFile q ∧ imp ∈ importsOf fs root rootFile q ∧
-    res q imp.rel = x.1 ∧ fs.lookup x.1 = some f ∧ f.defs[x.2]? = some (Def.frag n) ∧ Requests imp.targets n
+  ∃ q imp ds n, Reach res fs root rootFile q ∧ imp ∈ importsOf fs root rootFile q ∧
+    res q imp.rel = x.1 ∧ defsAt fs x.1 = some ds ∧ ds[x.2]? = some (Def.frag n) ∧ Requests imp.targets n
 
 /-- what has to be appended to the root's own definitions -/
 def InRef (x : DefId κ) : Prop :=
@@ -58,12 +61,12 @@ def InRef (x : DefId κ) : Prop :=
 
 /-- some reachable import line points to a file that is not among the configured documents -/
 def Dangling : Prop :=
-  ∃ q imp, Reach res fs root rootFile q ∧ imp ∈ importsOf fs root rootFile q ∧ fs.lookup (res q imp.rel) = none
+  ∃ q imp, Reach res fs root rootFile q ∧ imp ∈ importsOf fs root rootFile q ∧ defsAt fs (res q imp.rel) = none
 
 /-- some reachable import line names a fragment its target file does not define -/
 def MissingName : Prop :=
-  ∃ q imp f n, Reach res fs root rootFile q ∧ imp ∈ importsOf fs root rootFile q ∧
-    fs.lookup (res q imp.rel) = some f ∧ n ∈ namesOf imp.targets ∧ Def.frag n ∉ f.defs
+  ∃ q imp ds n, Reach res fs root rootFile q ∧ imp ∈ importsOf fs root rootFile q ∧
+    defsAt fs (res q imp.rel) = some ds ∧ n ∈ namesOf imp.targets ∧ Def.frag n ∉ ds
 
 /-! ### executable reference -/
 
@@ -74,7 +77,7 @@ def dedup {α : Type} [DecidableEq α] : List α → List α
 /-- existing targets of the import lines of the files in `S` -/
 def targetsOf (S : List κ) : List κ :=
   S.flatMap fun q => (importsOf fs root rootFile q).filterMap fun imp =>
-    if (fs.lookup (res q imp.rel)).isSome then some (res q imp.rel) else none
+    if (defsAt fs (res q imp.rel)).isSome then some (res q imp.rel) else none
 
 /-- add the not yet known targets until nothing is new -/
 def closure : Nat → List κ → List κ
@@ -92,9 +95,9 @@ def requestedFrom (t : Targets) : Nat → List Def → List Nat
   | i, .other :: ds => requestedFrom t (i + 1) ds
 
 def lineSel (q : κ) (imp : Import ρ) : List (DefId κ) :=
-  match fs.lookup (res q imp.rel) with
+  match defsAt fs (res q imp.rel) with
   | none => []
-  | some f => (requestedFrom imp.targets 0 f.defs).map fun i => (res q imp.rel, i)
+  | some ds => (requestedFrom imp.targets 0 ds).map fun i => (res q imp.rel, i)
 
 /-- the reference result: the set (as a duplicate-free list, in no particular order) of definitions to append -/
 def refImports : List (DefId κ) :=
@@ -102,9 +105,9 @@ def refImports : List (DefId κ) :=
     (importsOf fs root rootFile q).flatMap (lineSel res fs q)).filter fun x => x ∉ rootIds root rootFile)
 
 def lineBad (q : κ) (imp : Import ρ) : Bool :=
-  match fs.lookup (res q imp.rel) with
+  match defsAt fs (res q imp.rel) with
   | none => true
-  | some f => (namesOf imp.targets).any fun n => !(f.defs.contains (Def.frag n))
+  | some ds => (namesOf imp.targets).any fun n => !(ds.contains (Def.frag n))
 
 /-- the reference verdict: must resolution report an error? -/
 def refError : Bool :=
